@@ -213,6 +213,21 @@ Fixpoint upto_final (fin : bytes -> bool) (ms : list bytes) : list bytes :=
   | m :: r => if fin m then [m] else m :: upto_final fin r
   end.
 
+
+(* ---------------------------------------------------------------- premises of the C10 theorems *)
+(* the honest sender of direction [d] (repaired code) sealed and framed [ms] without failing *)
+Definition honest_run (seal : bytes -> bytes -> bytes) (d : dir) (ms frames : list bytes) : Prop :=
+  exists ctr', send_all seal true d (lsb d) ms = Ok (ctr', frames).
+
+(* everything sealed under the session key: by the sender of [d] and by the sender of the other direction *)
+Definition dir_log (seal : bytes -> bytes -> bytes) (d : dir) (sent_d sent_o : list bytes) :=
+  seal_log seal true (lsb d) sent_d ++ seal_log seal true (lsb (other d)) sent_o.
+
+(* H1 (what was sealed honestly opens) and H2 (ideal authenticity: only that opens) *)
+Definition ideal_aead (open : bytes -> bytes -> option bytes) (log : list (bytes * bytes * bytes)) : Prop :=
+  (forall n m c, In (n, m, c) log -> open n c = Some m) /\
+  (forall n m c, open n c = Some m -> In (n, m, c) log).
+
 (* ---------------------------------------------------------------- a toy ideal AEAD *)
 (* seal = nonce (12) ++ 4 tag bytes derived from the key ++ plaintext: the same 16 bytes of
    expansion as AES-128-GCM, so that model and implementation frames have equal lengths.
